@@ -76,13 +76,19 @@ pub enum Edit {
     MiddleBlankLine,
     TrailingSpace,
     AppendEpsilonRule,
+    /// every line break becomes CR LF (or back to LF when the text already uses CR LF)
+    ToggleCrlf,
+    /// only one line break (number n) is toggled between LF and CR LF
+    ToggleCrlfOneLine,
+    /// tabs instead of the first run of spaces
+    TabForSpaces,
     SyntaxError,
     Unresolved,
     NonUtf8,
     Empty,
 }
 
-pub const VALID_EDITS: &[Edit] = &[Edit::AppendComment, Edit::PrependComment, Edit::MiddleBlankLine, Edit::TrailingSpace, Edit::AppendEpsilonRule];
+pub const VALID_EDITS: &[Edit] = &[Edit::AppendComment, Edit::PrependComment, Edit::MiddleBlankLine, Edit::TrailingSpace, Edit::AppendEpsilonRule, Edit::ToggleCrlf, Edit::ToggleCrlfOneLine, Edit::TabForSpaces];
 pub const ERROR_EDITS: &[Edit] = &[Edit::SyntaxError, Edit::Unresolved, Edit::NonUtf8, Edit::Empty];
 
 pub fn apply_edit(base: &[u8], e: Edit, n: u64) -> Vec<u8> {
@@ -101,6 +107,29 @@ pub fn apply_edit(base: &[u8], e: Edit, n: u64) -> Vec<u8> {
         }
         Edit::TrailingSpace => v.extend_from_slice(" ".repeat(1 + (n % 4) as usize).as_bytes()),
         Edit::AppendEpsilonRule => v.extend_from_slice(format!("\nExtraRule{n}: () = => ();\n").as_bytes()),
+        Edit::ToggleCrlf => {
+            if v.windows(2).any(|w| w == b"\r\n") {
+                v = String::from_utf8_lossy(&v).replace("\r\n", "\n").into_bytes();
+            } else {
+                v = String::from_utf8_lossy(&v).replace('\n', "\r\n").into_bytes();
+            }
+        }
+        Edit::ToggleCrlfOneLine => {
+            let breaks: Vec<usize> = v.iter().enumerate().filter(|(_, b)| **b == b'\n').map(|(i, _)| i).collect();
+            if !breaks.is_empty() {
+                let i = breaks[(n as usize) % breaks.len()];
+                if i > 0 && v[i - 1] == b'\r' {
+                    v.remove(i - 1);
+                } else {
+                    v.insert(i, b'\r');
+                }
+            }
+        }
+        Edit::TabForSpaces => {
+            if let Some(i) = v.iter().position(|b| *b == b' ') {
+                v[i] = b'\t';
+            }
+        }
         Edit::SyntaxError => v.extend_from_slice(b"\n@@@ not a grammar\n"),
         Edit::Unresolved => v.extend_from_slice(format!("\nBadRule{n}: () = MissingSymbol => ();\n").as_bytes()),
         Edit::NonUtf8 => v.extend_from_slice(b"\n// \xff\xfe\n"),
